@@ -1,2 +1,2 @@
 #!/bin/bash
-exec /verif/bin/schedcheck.sh C14 ./checks/c14 0 "$@"
+exec /verif/bin/schedcheck.sh C14 ./checks/c14 1 "$@"
